@@ -83,8 +83,14 @@ fn explore_unit(u: &Unit, want: &[u32], max: u64) -> Report {
                         match rayon::model::run_once(u.threads, Some(&u.free), &picks, &[], || driver::run_segment(u.seg)) {
                             Ok((again, _)) if again == bits => (),
                             _ => {
-                                eprintln!("machinery error: schedule {:?} of segment {} (T={}) is not reproducible", picks, u.seg, u.threads);
-                                std::process::exit(3);
+                                // the same schedule gave two different results: the run depends on something that is
+                                // neither its inputs nor the schedule - that is the "repeated runs" clause itself
+                                rep.violate(
+                                    "C05 repeated runs from the same weights and data differ",
+                                    format!("segment {} with {} workers: replaying schedule {:?} gave different bits ({})", u.seg, u.threads, picks, first_diff(&bits, want)),
+                                    &case(),
+                                );
+                                return false;
                             }
                         }
                         let what = if u.seg.starts_with("learn") {
@@ -149,6 +155,46 @@ fn scan_repo() -> (u64, Vec<String>) {
     (files, hits)
 }
 
+/// iterations over a std HashMap / HashSet in the library outside its unit tests: their order differs between instances
+/// (RandomState), so each one is a potential source of run-to-run differences. For every site the scan records whether
+/// the next 14 lines sort what was collected (`sort`), which is how the library makes the order irrelevant.
+fn scan_hash_iteration() -> Vec<String> {
+    let mut out = Vec::new();
+    if let Ok(rd) = std::fs::read_dir("/repo/src") {
+        let mut paths: Vec<_> = rd.flatten().map(|e| e.path()).filter(|p| p.extension().map(|x| x == "rs").unwrap_or(false)).collect();
+        paths.sort();
+        for p in paths {
+            let Ok(text) = std::fs::read_to_string(&p) else { continue };
+            let lines: Vec<&str> = text.lines().collect();
+            // names declared as HashMap / HashSet in this file
+            let mut names: Vec<String> = Vec::new();
+            for l in &lines {
+                if let Some(pos) = l.find(": HashMap<").or_else(|| l.find(": HashSet<")) {
+                    let head = l[..pos].trim_end();
+                    let name: String = head.chars().rev().take_while(|c| c.is_alphanumeric() || *c == '_').collect::<String>().chars().rev().collect();
+                    if !name.is_empty() && !names.contains(&name) {
+                        names.push(name);
+                    }
+                }
+            }
+            let test_start = lines.iter().position(|l| l.trim() == "#[cfg(test)]").unwrap_or(lines.len());
+            for (i, l) in lines.iter().enumerate().take(test_start) {
+                if l.trim_start().starts_with("//") {
+                    continue;
+                }
+                for n in &names {
+                    let pats = [format!("{}.iter()", n), format!("{}.keys()", n), format!("{}.values()", n), format!("{}.values_mut()", n), format!("in &{}", n), format!("in {} ", n), format!("{}.into_iter()", n)];
+                    if pats.iter().any(|pt| l.contains(pt.as_str())) {
+                        let sorted = lines[i..(i + 15).min(lines.len())].iter().any(|x| x.contains("sort"));
+                        out.push(format!("{}:{}: iterates `{}`{}", p.file_name().unwrap().to_string_lossy(), i + 1, n, if sorted { " (sorted afterwards)" } else { " (NOT sorted)" }));
+                    }
+                }
+            }
+        }
+    }
+    out
+}
+
 fn main() {
     let args: Vec<String> = std::env::args().collect();
     let root = std::env::var("VERIF_ROOT").unwrap_or_else(|_| "/verif".to_string());
@@ -196,18 +242,35 @@ fn main() {
     // 1. canonical runs: determinism, and equality across thread counts
     let mut want: Vec<(&'static str, Vec<u32>)> = Vec::new();
     let mut regions: Vec<(&'static str, usize, usize)> = Vec::new(); // (segment, threads, #regions)
+    let mut unstable: Vec<&'static str> = Vec::new();
     for seg in driver::SEGMENTS {
         let (b1, _, _) = canonical(seg, 1).unwrap_or_else(|e| {
             eprintln!("machinery error: {}", e);
             std::process::exit(3)
         });
-        let (b2, _, _) = canonical(seg, 1).unwrap();
-        if b1 != b2 {
-            rep.violate(
-                "C05 repeated runs from the same weights and data differ",
-                format!("segment {}: {}", seg, first_diff(&b2, &b1)),
-                &Kv::new().put("segment", seg).put("threads", 1).put("free", "").put("picks", "").put("kinds", ""),
-            );
+        // repetitions from freshly built networks (same weights, same data). What can differ between two instances in one
+        // process is per-instance state the library did not derive from its inputs - in practice the iteration order of a
+        // std HashMap (RandomState is seeded per map and cannot be steered from outside): this part is a sample of hash
+        // seeds, not an enumeration; the static scan below lists the iterations it guards.
+        let reps = if tier.thorough() { 48 } else { 12 };
+        let mut stable = true;
+        for i in 0..reps {
+            let (b2, _, _) = canonical(seg, 1).unwrap();
+            rep.states += 1;
+            if b1 != b2 {
+                rep.violate(
+                    "C05 repeated runs from the same weights and data differ",
+                    format!("segment {} (repetition {} of {}): {}", seg, i + 1, reps, first_diff(&b2, &b1)),
+                    &Kv::new().put("segment", seg).put("threads", 1).put("free", "").put("picks", "").put("kinds", ""),
+                );
+                stable = false;
+                break;
+            }
+        }
+        if !stable {
+            // nothing else can be attributed on a segment that does not even reproduce itself
+            unstable.push(seg);
+            continue;
         }
         for &t in &ts {
             let (bt, r, log) = canonical(seg, t).unwrap();
@@ -277,6 +340,9 @@ fn main() {
                     let ctxs = r.get("context").and_then(|x| x.as_str()).unwrap_or("");
                     let dg = r.get("digest").and_then(|x| x.as_str()).unwrap_or("");
                     conf_runs += r.get("repetitions").and_then(|x| x.as_i64()).unwrap_or(1) as u64;
+                    if unstable.iter().any(|u| *u == seg) {
+                        continue;
+                    }
                     if let Some((_, w)) = want.iter().find(|(s, _)| *s == seg) {
                         let wd = format!("{:016x}", driver::digest(w));
                         if dg != wd {
@@ -321,6 +387,7 @@ fn main() {
     // 5. interior mutability scan (leaf granularity is complete only without shared mutable state)
     let (files, hits) = scan_repo();
     rep.notes.insert("interior_mutability_scan".into(), Json::obj().with("files", Json::i(files as i64)).with("hits", Json::Arr(hits.iter().map(|h| Json::s(h.clone())).collect())));
+    rep.notes.insert("hash_iteration_scan".into(), Json::Arr(scan_hash_iteration().iter().map(|h| Json::s(h.clone())).collect()));
     rep.notes.insert("conformance".into(), Json::s(conf_note));
     rep.notes.insert("threads".into(), Json::Arr(ts.iter().map(|t| Json::i(*t as i64)).collect()));
     rep.notes.insert(
@@ -332,7 +399,7 @@ fn main() {
 
     let meta = Meta {
         rule: format!(
-            "driver: conv+maxpool+deconv+feedback block+dense(dropout)+dense network; learn() on 5 samples with batch 2/3/5, 2 epochs, Adam and SGDM, 65 validation samples; batch 17 (25 samples) and batch 32 (40 samples) with at most 1 (thorough 2) non-canonical choices per region; validate() on 65 and 130 samples, and on 321 and 641 samples (6 and 11 chunks) with the choice cap; predict_batch() on 0,1,64,65,129,130 inputs; a 96->70->3 dense network (rows of 96 and 70 weights) through learn() with batch 2 and predict_batch(). Thread counts {:?}; in every parallel region the choices are: entered from outside the pool or not, every steal pattern of rayon's adaptive splitter (stolen halves are `migrated`), every interleaving of a stolen half's leaves with its sibling's; schedules with <= {} deviating regions per run{}. A state is one complete schedule (executed on the real library code); transitions = parallel regions executed; non-trivial = schedules with at least one non-canonical choice",
+            "driver: conv+maxpool+deconv+feedback block+dense(dropout)+dense network; learn() on 5 samples with batch 2/3/5, 2 epochs, Adam and SGDM, 65 validation samples; batch 17 (25 samples) and batch 32 (40 samples) with at most 1 (thorough 2) non-canonical choices per region; validate() on 65 and 130 samples, and on 321 and 641 samples (6 and 11 chunks) with the choice cap; predict_batch() on 0,1,64,65,129,130 inputs; a 96->70->3 dense network (rows of 96 and 70 weights) through learn() with batch 2 and predict_batch(); a feedback block of two dense layers with input skips and 5 repetitions through learn() with batch 3. Every segment is also repeated 12 (thorough 48) times from freshly built networks (same weights and data) and must reproduce its bits. Thread counts {:?}; in every parallel region the choices are: entered from outside the pool or not, every steal pattern of rayon's adaptive splitter (stolen halves are `migrated`), every interleaving of a stolen half's leaves with its sibling's; schedules with <= {} deviating regions per run{}. A state is one complete schedule (executed on the real library code); transitions = parallel regions executed; non-trivial = schedules with at least one non-canonical choice",
             ts,
             if tier.thorough() { 2 } else { 1 },
             if tier.thorough() { " (pairs of regions: <= 2 non-canonical choices per region)" } else { "" }
